@@ -15,20 +15,23 @@ sys.path.insert(0, os.path.join(os.path.dirname(os.path.abspath(__file__)), ".."
 from vlib import *
 import sandbox, sessions
 
-NOADDR = {"loc": "", "dom": [], "noat": 0, "long": 0, "lit": 0}
+LIMIT = 900          # addresses of LIMIT bytes and more are refused (qmail-smtpd addrparse: addr.len counts the final NUL)
+NOADDR = {"loc": "", "dom": [], "noat": 0, "long": 0, "lit": 0, "edge": 0}
 
 
 def A(loc, dom, **kw):
-    a = {"loc": loc, "dom": list(dom), "noat": 0, "long": 0, "lit": 0}
+    a = {"loc": loc, "dom": list(dom), "noat": 0, "long": 0, "lit": 0, "edge": 0}
     a.update(kw)
     return a
 
 
 SENDERS = [A("s", ["ok", "test"]), A("bad", ["bmf", "test"]), A("x", ["bmfdom", "test"]), A("", []), A("s", ["ok", "test"], long=1),
-           A("bulk@good.test", ["bmfdom", "test"]), A("x@bmfdom.test", ["ok", "test"])]        # an '@' inside the (quoted) local part
+           A("bulk@good.test", ["bmfdom", "test"]), A("x@bmfdom.test", ["ok", "test"]),         # an '@' inside the (quoted) local part
+           A("s", [], lit=1, edge=1)]                  # an IP-literal address one byte under the length limit as written
 RCPTS = [A("r", ["rh", "test"]), A("r", ["sub", "dot", "test"]), A("r", ["dot", "test"]), A("r", ["more", "test"]), A("r", ["x", "moredot", "test"]),
          A("r", ["other", "test"]), A("r", ["x", "rh", "test"]), A("r", [], noat=1), A("r", [], lit=1), A("r", ["rh", "test"], long=1),
-         A("r", ["moredot", "test"]), A("q", ["rh", "test"]), A("r@rh.test", ["other", "test"]), A("r@other.test", ["rh", "test"])]
+         A("r", ["moredot", "test"]), A("q", ["rh", "test"]), A("r@rh.test", ["other", "test"]), A("r@other.test", ["rh", "test"]),
+         A("r", [], lit=1, edge=1)]
 BASE = {"rh": 1, "exact": [["rh", "test"], ["lip", "test"]], "suffix": [["dot", "test"]], "mexact": [["more", "test"]], "msuffix": [["moredot", "test"]],
         "bmfaddr": [{"loc": "bad", "dom": ["bmf", "test"]}], "bmfdom": [["bmfdom", "test"]], "lip": ["test", "example"], "relay": "unset"}
 # lip: control/localiphost; when the file is absent the name defaults to control/me (test.example in the sandbox)
@@ -81,6 +84,8 @@ def mailbox(a, rng):
     """the exact mailbox text this occurrence of the abstract address denotes (case may vary: matching ignores case)"""
     if a["long"]:
         loc = a["loc"] + "l" * rng.choice([900, 1000, 2000])
+    elif a.get("edge"):
+        loc = a["loc"] + "e" * (LIMIT - 1 - len("@[127.0.0.1]") - len(a["loc"]))     # exactly LIMIT - 1 bytes as written
     else:
         loc = a["loc"]
     if a["noat"]:
@@ -232,7 +237,7 @@ def attach_submissions(rec, subs, cfg):
                     forms.append((text + "@relay.suffix.test", aa, 1))
                 for text, aa, sfx in forms:
                     cand.setdefault(text.encode("latin1"), (aa, sfx))
-        unknown = {"loc": "?", "dom": ["unknown"], "noat": 0, "long": 0, "lit": 0}
+        unknown = {"loc": "?", "dom": ["unknown"], "noat": 0, "long": 0, "lit": 0, "edge": 0}
         s_a, _ = cand.get(sender, (unknown, 0))
         rc = []
         for r in rcpts:
